@@ -136,9 +136,14 @@ def c10_oracle(sysname, unit, x=2.5, registry=None):
 CLOSURE_KINDS = {"outside", "notfixed"}
 
 
-def replay_code(setup, sysname, unit_code, x, registry_code="None"):
+def replay_code(setup, sysname, unit_code, x, registry_code="None", kinds=None):
+    """a self-contained snippet: evaluates the oracle and fails iff one of `kinds` (default: any)
+    of its checks fails — so the replay of one defect is not tripped by another, listed one"""
+    sel = "fails" if kinds is None else f"[f for f in fails if f in {sorted(kinds)!r}]"
+    if setup:  # a system the tree refuses to build leaves nothing to check
+        setup = "try:\n" + "".join("    " + l + "\n" for l in setup.strip().split("\n")) + "except Exception:\n    sys.exit(0)\n"
     return (ORACLE + "\n" + setup + f"\nv, fails, detail = c10_oracle({sysname!r}, {unit_code}, {x!r}, registry={registry_code})\n"
-            "assert not fails, (v, fails, detail)\n")
+            f"bad = {sel}\nassert not bad, (v, bad, detail)\n")
 
 
 # ---------------------------------------------------------------------------------------------
@@ -320,14 +325,19 @@ def run(tier, seed):
             chk.count("float-range-skipped")
             return None
         atomic = "atomic" if u.is_atomic else "compound"
-        rp = {"python": replay_code(setup, sysname, repr(us), x, regcode), "system": sysname, "unit": us}
-        if setup:
-            rp["setup"] = setup
+
+        def rp(sel=None, **kw):
+            d = {"python": replay_code(setup, sysname, repr(us), x, regcode, sel), "system": sysname, "unit": us}
+            if setup:
+                d["setup"] = setup
+            d.update(kw)
+            return d
+
         try:
             verdict, fails, detail = oracle(sysname, u, x)
         except Exception as e:
             chk.fail(f"raise|{tag}|{atomic}|{core.exc_name(e)}", f"in_base({sysname!r}) of {us} raised {core.exc_name(e)} {('[' + setup.strip() + ']') if setup else ''}",
-                     dict(rp, error=repr(e)[:300]))
+                     rp(error=repr(e)[:300]))
             return None
         chk.case((tag, sysname, us), sample(verdict) if sample else None)
         chk.count(f"{tag}:{verdict}")
@@ -340,10 +350,10 @@ def run(tier, seed):
                     key = em_key(sysname if tag in ("builtin", "compound") else tag, sysname, u)
                 else:
                     key = f"{tag}|closure|compound|{'em' if is_em else 'plain'}"
-                chk.fail(key, what, dict(rp, kinds=fails))
+                chk.fail(key, what, rp(CLOSURE_KINDS, kinds=fails))
             for f in fails:
                 if f not in CLOSURE_KINDS:
-                    chk.fail(f"{tag}|{f}|{atomic}|{'em' if is_em else 'plain'}", what, dict(rp, kinds=fails))
+                    chk.fail(f"{tag}|{f}|{atomic}|{'em' if is_em else 'plain'}", what, rp({f}, kinds=fails))
         add_inbase_case(tag, sysname, u, x, extra)
         return verdict
 
@@ -415,8 +425,11 @@ def run(tier, seed):
                 # direct oracle: the synthesised unit has the requested dimension and only owned atoms
                 owned = ns["c10_owned"](S)
                 if r.dimensions != dim or not ns["c10_atoms"](r.expr) <= owned:
+                    names = ["mass", "length", "time", "temperature", "angle", "current_mks", "luminous_intensity", "logarithmic"]
+                    dcode = "*".join(f"D.{n}**sympy.Rational({Fraction(q).numerator}, {Fraction(q).denominator})"
+                                     for n, q in zip(names, dv.split(",")) if Fraction(q) != 0) or "sympy.Integer(1)"
                     chk.fail(f"getitem|{sname}", f"unit_system[{dim}] returned {r} (dimension {r.dimensions})",
-                             {"python": ORACLE + f"\nS = unit_system_registry[{sname!r}]\nimport sympy\nfrom unyt.dimensions import *\ndim = {sympy.srepr(dim)}\n".replace("Symbol('(", "sympy.Symbol('(")
+                             {"python": ORACLE + f"\nimport sympy\nS = unit_system_registry[{sname!r}]\ndim = {dcode}\n"
                               + "r = S[dim]\nassert r.dimensions == dim and c10_atoms(r.expr) <= c10_owned(S), r\n"})
 
     # ------------------------------------------------------------------ 5. user-defined systems
@@ -434,10 +447,17 @@ def run(tier, seed):
     all_names = list(lut.keys())
     prefixable = gen.prefixable_symbols()
     created = []
-    for i in range(nuser):
+    for i in range(nuser + 8):
         name = f"c10u_{seed}_{i}"
         args_code, args_val = [], []
+        wrong_slot = i - nuser if i >= nuser else None  # the last eight: exactly one slot of the wrong dimension
         for j, (dn, dsym) in enumerate(slots):
+            if wrong_slot is not None:
+                s = defaults[(j + 1 + i) % 8 if (j + 1 + i) % 8 != j else (j + 2) % 8] if j == wrong_slot else defaults[j]
+                if j == wrong_slot and rng.random() < 0.5 and s in prefixable:
+                    s = rng.choice(["k", "m"]) + s
+                args_code.append(repr(s)); args_val.append(s)
+                continue
             dv = gen.dim_vec(dsym)
             cands = [s for s in bydim.get(dv, []) if s not in ("lat", "lon")]
             r_ = rng.random()
